@@ -32,6 +32,7 @@ From Coq Require Import String List NArith Bool Arith.
 From Sylt Require Import Lex.Regex Lex.Logos Lex.LayoutProofs Gen.GenTokens
   Syntax.Ast Syntax.Tok Parse.PrecTable Parse.Parser Parse.ParserProofs Parse.OpTree Parse.ExprRoundTrip
   Parse.Sugar Parse.Layout Parse.LayoutSim Parse.ParserTotal Parse.PreSim Parse.LayoutStmt Gen.GenPrec.
+From Sylt Require Parse.SimGen Parse.CommentSim.
 Import ListNotations.
 
 Definition gen_ptab : ptab := interp GenPrec.table.
@@ -196,6 +197,38 @@ Theorem C14_nl_in_brackets_statement_settled : forall ts ts' f,
   end.
 Proof. exact (nl_in_brackets_statement_settled gen_ptab C14_bracket_sane C14_total_ok). Qed.
 
+(* ---- whole programs: comments ---- *)
+(* Two files (token lists, as sylt_parser's module() receives them) that are equal once the comment tokens are
+   removed - comment lines, comments at the end of a line, before the first token, inside brackets, anywhere -
+   are both rejected, or both accepted with the same top-level statements (equal trees) up to EmptyStatements
+   (a comment before a blank line, or after the last statement, leaves an EmptyStatement that carries it).  At
+   every fuel, with the same kind of outcome; every statement form, fn/if/case bodies included.  The file must
+   contain a token other than a comment: a file consisting of a comment without a line break is rejected while
+   the empty file is accepted (known finding).  Parse/SimGen.v + Parse/CommentSim.v. *)
+Theorem C14_comments_anywhere : forall ts ts' f,
+  CommentSim.ec ts = CommentSim.ec ts' -> hd TEOF (CommentSim.ec ts) <> TEOF ->
+  match parse_program gen_ptab f ts, parse_program gen_ptab f ts' with
+  | Ok (ss, _), Ok (ss', _) => SimGen.noempty ss = SimGen.noempty ss'
+  | Err _ _, Err _ _ => True
+  | Fuel, Fuel => True
+  | Panic, Panic => True
+  | _, _ => False
+  end.
+Proof. exact (CommentSim.comments_anywhere gen_ptab C14_total_ok). Qed.
+
+(* the same for one statement: the same tree *)
+Theorem C14_comments_statement : forall ts ts' f, CommentSim.ec ts = CommentSim.ec ts' ->
+  (match ts with TComment :: _ => False | _ => True end) ->
+  (match ts' with TComment :: _ => False | _ => True end) ->
+  match parse_statement gen_ptab f ts, parse_statement gen_ptab f ts' with
+  | Ok (s, _), Ok (s', _) => s = s'
+  | Err _ _, Err _ _ => True
+  | Fuel, Fuel => True
+  | Panic, Panic => True
+  | _, _ => False
+  end.
+Proof. exact (CommentSim.comments_statement gen_ptab C14_total_ok). Qed.
+
 (* ---- stated, not proved ---- *)
 Definition C14_nl_in_brackets_statement_level : Prop := nl_in_brackets_statement_level gen_ptab.   (* refuted above *)
 Definition C14_ws_insert_whole_input : Prop := ws_insert_statement gen_table.
@@ -323,6 +356,21 @@ Proof.
   - vm_compute. split; [reflexivity|split; [discriminate|]]. repeat eexists.
 Qed.
 
+(* comments: // header <nl> <nl> f :: fn x: int -> int do // c <nl> // line <nl> ret x + 1 // c <nl> end <nl> // tail
+   against the same without any comment.  Both accepted; the commented one has one more EmptyStatement (the header comment before the blank line). *)
+Definition cm_clean : list tok :=
+  [TK KNewline; TK KNewline; TIdent (nm "f"); TK KColonColon; TK KFn; TIdent (nm "x"); TK KColon; TK KIntType; TK KArrow; TK KIntType;
+   TK KDo; TK KNewline; TK KNewline; TK KRet; TIdent (nm "x"); TK KPlus; TInt 1; TK KNewline; TK KEnd; TK KNewline].
+Definition cm_dirty : list tok :=
+  [TComment; TK KNewline; TK KNewline; TIdent (nm "f"); TK KColonColon; TK KFn; TIdent (nm "x"); TK KColon; TK KIntType; TK KArrow;
+   TK KIntType; TK KDo; TComment; TK KNewline; TComment; TK KNewline; TK KRet; TIdent (nm "x"); TK KPlus; TComment; TInt 1; TComment;
+   TK KNewline; TK KEnd; TK KNewline; TComment].
+Example C14_example_comments :
+  CommentSim.ec cm_dirty = CommentSim.ec cm_clean /\ hd TEOF (CommentSim.ec cm_dirty) <> TEOF
+  /\ (exists ss c ss' c', parse_program gen_ptab 60 cm_clean = Ok (ss, c) /\ parse_program gen_ptab 60 cm_dirty = Ok (ss', c')
+                          /\ length ss = 1 /\ length ss' = 2 /\ SimGen.noempty ss = SimGen.noempty ss').
+Proof. vm_compute. split; [reflexivity|split; [discriminate|]]. repeat eexists. Qed.
+
 (* white space after identifier, number, operator and keyword texts: the live patterns die *)
 Definition codes (s : string) : list N := ascii_name s.
 Example C14_example_ws_dies :
@@ -350,6 +398,8 @@ Print Assumptions C14_loop_do_unconditional.
 Print Assumptions C14_loop_do_converse.
 Print Assumptions C14_nl_in_brackets_statement_level_same_fuel_refuted.
 Print Assumptions C14_nl_in_brackets_statement_settled.
+Print Assumptions C14_comments_anywhere.
+Print Assumptions C14_comments_statement.
 Print Assumptions C14_layout_token.
 Print Assumptions C14_layout_skip.
 Print Assumptions C14_layout_lookahead.
